@@ -96,11 +96,16 @@ def run(tier):
             continue
         spell.append((name, name + "p", None))
         if int(iso) in (0, 1):
-            spell.append((name, ("D-" if int(iso) == 0 else "L-") + name, None))
+            own = ("D-" if int(iso) == 0 else "L-") + name
+            spell.append((name, own, None))
+            spell.append((name + " a", own + " a", None))
+            spell.append((name + " b", own + "p b", None))
+            spell.append((name + "(a1-3)Gal", own + "(a1-3)Gal", None))
+            spell.append((name + "(b1-4)Glc", own + "p(b1-4)Glc", None))
         spell.append((name + " a", name + "a", None))
         spell.append((name + " b", name + "pb", None))
     if tier == "quick":
-        spell = r.sample(spell, 60)
+        spell = r.sample(spell, 120)
     flat = sorted(set(x for s in spell for x in s[:2]))
     out = dict(zip(flat, chem.convert_all(flat)))
     for a, b, _ in spell:
